@@ -158,6 +158,44 @@ func c11Run(c core.Case) core.Result {
 			}
 		}
 		return core.Okay(true, first)
+	case "collide":
+		// arguments that are caller variables named like the macro's parameters: evaluated in the caller's scope
+		form := c.N[0]
+		sel := c.N[1:]
+		callerVals := map[string]string{"a": "va", "b": "vb", "c": "vc"}
+		atoms := []string{"a", "b", "c", "'lit'", "a ~ b"}
+		atomVal := []string{"va", "vb", "vc", "lit", "vavb"}
+		var args, vals []string
+		for _, i := range sel {
+			args = append(args, atoms[i])
+			vals = append(vals, atomVal[i])
+		}
+		def := "{% macro m(a, b, c) %}(a={{ a }};b={{ b }};c={{ c }}){% endmacro %}"
+		prelude, call, _ := c11Call(form, strings.Join(args, ", "))
+		tpls := map[string]string{"mac": def}
+		main := ""
+		if form == 0 {
+			main = def
+		}
+		tpls["main"] = main + prelude + "{% set a = 'va' %}{% set b = 'vb' %}{% set c = 'vc' %}{{ " + call + " }}|{{ a }}{{ b }}{{ c }}"
+		get := func(i int) string {
+			if i < len(vals) {
+				return vals[i]
+			}
+			return ""
+		}
+		want := "(a=" + get(0) + ";b=" + get(1) + ";c=" + get(2) + ")|" + callerVals["a"] + callerVals["b"] + callerVals["c"]
+		out, err, pan, _ := c11Exec(tpls)
+		if pan != "" {
+			return core.Violation("panic", "panicked: "+pan+"\n    "+tpls["main"])
+		}
+		if err != nil {
+			return core.Violation("error", fmt.Sprintf("%q fails: %v", tpls["main"], err))
+		}
+		if out != want {
+			return core.Violation("macro", fmt.Sprintf("%q renders\n    %q, want\n    %q", tpls["main"], out, want))
+		}
+		return core.Okay(true, out)
 	case "nested":
 		// macros calling macros through _self in the defining template, depth 2, arity mismatch inside
 		p, a := c.N[0], c.N[1]
@@ -221,6 +259,25 @@ func c11Levels(tier string) []core.Level {
 				}
 			}
 		}},
+		{Name: "arguments that are caller variables named like the parameters: every argument list of length <= 3 over {a, b, c, literal, a ~ b} x 4 call forms", Gen: func(emit func(core.Case)) {
+			for form := 0; form < 4; form++ {
+				for n := 0; n <= 3; n++ {
+					total := 1
+					for i := 0; i < n; i++ {
+						total *= 5
+					}
+					for m := 0; m < total; m++ {
+						N := []int{form}
+						x := m
+						for i := 0; i < n; i++ {
+							N = append(N, x%5)
+							x /= 5
+						}
+						emit(core.Case{Fam: "collide", N: N})
+					}
+				}
+			}
+		}},
 		{Name: "macros calling macros through _self (depth 3) with every inner arity", Gen: func(emit func(core.Case)) {
 			for p := 0; p <= 4; p++ {
 				for a := 0; a <= 6; a++ {
@@ -240,7 +297,7 @@ func init() {
 	core.Register(&core.Check{
 		ID:       "C11",
 		Category: "exploration",
-		Rule: "macro definitions with 0..4 parameters x calls with 0..6 distinct arguments x call form (_self, import alias, from-import, renamed from-import) x use of the result (print, assign and print twice, concatenate, argument of another macro, argument of a recording function, in a 2-iteration loop, in a capture, as condition and filter input); macros calling macros through _self to depth 3 with every inner arity; unknown macros of an imported set must fail. " +
+		Rule: "macro definitions with 0..4 parameters x calls with 0..6 distinct arguments x call form (_self, import alias, from-import, renamed from-import) x use of the result (print, assign and print twice, concatenate, argument of another macro, argument of a recording function, in a 2-iteration loop, in a capture, as condition and filter input); argument lists built from caller variables named like the macro's own parameters; macros calling macros through _self to depth 3 with every inner arity; unknown macros of an imported set must fail. " +
 			"Every macro body prints each parameter and Context.Name(). Expected output by construction (positional binding, missing = null, surplus ignored, name = defining template); the distinct-outcome count shows the four call forms agree modulo the template name. distinct = distinct configuration; non-trivial = all",
 		Assumptions: []string{"a macro called through an import does not itself refer to _self (stated divergence)", "macros are defined before use in a non-extending template"},
 		Levels:      c11Levels,
